@@ -117,13 +117,22 @@ RULES = [
      '(c>=0x0100000000000000ul&&c<=0xFEFFFFFFFFFFFFFFul)', 'quick'),
     ('uint64le_mask_not_one', 'uint64_le::mask_not_one<0xFF000000000000FF,0x1200000000000034>', 'uint64le',
      '!((c&0xFF000000000000FFul)==0x1200000000000034ul)', 'quick'),
+    # ---- single-element specialisations range< R, Peek, C, C > (both polarities) and contrib/predicates.hpp
+    ('ascii_range_xx', "ascii::range<'x','x'>", 'char', "(c=='x')", 'quick'),
+    ('ascii_not_range_xx', "ascii::not_range<'x','x'>", 'char', "!(c=='x')", 'quick'),
+    ('utf8_not_range_1', 'utf8::not_range<0x20AC,0x20AC>', 'utf8', '!(c==0x20ACu)', 'quick'),
+    ('uint8_mask_not_range_1', 'uint8::mask_not_range<0xF0,0x40,0x40>', 'uint8', '!((c&0xF0u)==0x40u)', 'quick'),
+    ('pred_not_one', "ascii::predicate_not< ascii::one<'\"'> >", 'char', "!(c=='\"')", 'quick'),
+    ('pred_and_nots', "ascii::predicates_and< ascii::not_one<'a'>, ascii::not_range<'0','9'> >", 'char', "(!(c=='a')&&!(c>='0'&&c<='9'))", 'quick'),
+    ('pred_or', "ascii::predicates_or< ascii::one<'a'>, ascii::range<'0','9'> >", 'char', "(c=='a'||(c>='0'&&c<='9'))", 'quick'),
+    ('pred_utf8_not', "utf8::predicate_not< utf8::range<0x80,0x7FF> >", 'utf8', "!(c>=0x80u&&c<=0x7FFu)", 'quick'),
 ]
 
 TRACKINGS = [('eager', 'e'), ('lazy', 'l')]
 
 
 def tu():
-    s = TU_PROLOGUE
+    s = TU_PROLOGUE.replace('namespace vf', '#include <tao/pegtl/contrib/predicates.hpp>\nnamespace vf', 1)
     for name, rule, pk, setx, tier in RULES:
         for tr, sfx in TRACKINGS:
             s += tu_root('%s_%s' % (name, sfx), INPUT_TYPES[(tr, 'lf_crlf')], '%s::match(in)' % rule)
@@ -140,7 +149,7 @@ def ctype_of(pk):
 
 def jobs(tier):
     out = []
-    TR = traits_of(NAME, {name: rule for name, rule, pk, setx, jt in RULES})
+    TR = traits_of(NAME, {name: rule for name, rule, pk, setx, jt in RULES}, includes=('tao/pegtl/contrib/predicates.hpp',))
     for name, rule, pk, setx, jt in RULES:
         if jt == 'thorough' and tier != 'thorough':
             continue
